@@ -1055,7 +1055,8 @@ def groupOf (z : Bytes) (m : VMsg) (r : VRec) : List VRec := (collected z m).fil
 
 theorem verifyRRSIG_iff (oneSig : List VRec → VSig → Bool) (nKeys : Nat) (zone : Bytes) (m : VMsg) :
     verifyRRSIG oneSig nKeys zone m = true ↔
-      nKeys ≠ 0 ∧ (∀ r ∈ m.answer, nameInZone (lower r.name) (lower (fqdn zone)) = true) ∧
+      nKeys ≠ 0 ∧
+      (∀ r ∈ m.answer, exempt (lower (fqdn zone)) m r = false → nameInZone (lower r.name) (lower (fqdn zone)) = true) ∧
       (collected (lower (fqdn zone)) m = [] ∨
         (m.sigs ≠ [] ∧ ∀ r ∈ collected (lower (fqdn zone)) m,
           isRRset (hdrsOf (groupOf (lower (fqdn zone)) m r)) = true ∧
@@ -1067,19 +1068,21 @@ theorem verifyRRSIG_iff (oneSig : List VRec → VSig → Bool) (nKeys : Nat) (zo
   by_cases hn : nKeys = 0
   · simp [hn]
   · simp only [hn, if_false, ne_eq, not_false_eq_true, true_and]
-    by_cases hout : (m.answer.any fun r => !nameInZone (lower r.name) z) = true
+    by_cases hout : (m.answer.any fun r => !exempt z m r && !nameInZone (lower r.name) z) = true
     · simp only [hout, if_true, Bool.false_eq_true, false_iff, not_and]
       intro hall
       obtain ⟨r, hr, hz⟩ := List.any_eq_true.mp hout
-      have := hall r hr
-      simp [this] at hz
+      simp only [Bool.and_eq_true, Bool.not_eq_true'] at hz
+      have := hall r hr hz.1
+      rw [this] at hz; cases hz.2
     · simp only [hout, Bool.false_eq_true, if_false]
-      have hall : ∀ r ∈ m.answer, nameInZone (lower r.name) z = true := by
-        intro r hr
+      have hall : ∀ r ∈ m.answer, exempt z m r = false → nameInZone (lower r.name) z = true := by
+        intro r hr hex
         cases hz : nameInZone (lower r.name) z with
         | true => rfl
-        | false => exact absurd (List.any_eq_true.mpr ⟨r, hr, by simp [hz]⟩) hout
-      have hall' : (∀ r ∈ m.answer, nameInZone (lower r.name) z = true) ↔ True := ⟨fun _ => trivial, fun _ => hall⟩
+        | false => exact absurd (List.any_eq_true.mpr ⟨r, hr, by simp [hz, hex]⟩) hout
+      have hall' : (∀ r ∈ m.answer, exempt z m r = false → nameInZone (lower r.name) z = true) ↔ True :=
+        ⟨fun _ => trivial, fun _ => hall⟩
       rw [hall', true_and]
       by_cases he : (collected z m).isEmpty = true
       · have : collected z m = [] := by simpa using he
